@@ -130,6 +130,7 @@ structure Ob where
   macc : Bytes := []                 -- payload the message read in flight had gathered at its last control callback
   sub : List Sub := []               -- the model's `submitted`, with content
   reported : Nat := 0                -- frames of the wire the peer has already reported
+  reader : Option (CbId Ã— Bool) := none   -- the read that is outstanding (callback id, "is a message read")
   deriving Repr
 
 def kindOf (o : Ob) (cb : CbId) : Kind := (o.kinds.lookup cb).getD .flush
@@ -177,13 +178,17 @@ def ostep (max : Nat) (prog : CbId â†’ List Action) (s : St) (o : Ob) : OLabel â
     | none => none
     | some s' =>
       let o1 := grow s s' o (some c) none
-      some (s', { o1 with kinds := (match c.reg with | some p => p :: o.kinds | none => o.kinds) }, [c.ev])
+      some (s', { o1 with kinds := (match c.reg with | some p => p :: o.kinds | none => o.kinds),
+                          reader := (match c with
+                            | .read cb => some (cb, false)
+                            | .readMsg cb _ => some (cb, true)
+                            | _ => o.reader) }, [c.ev])
   | .skip a => (step true prog s (.skip a)).map fun s' => (s', o, [.skip])
   | .ret => (step true prog s .ret).map fun s' => (s', o, [.ret (stOf s'.ws)])
   | .enter cb r =>
     (step true prog s (.enter cb r)).map fun s' =>
       let k := kindOf o cb
-      (s', if k.isRead then { o with held := [], cur := none, macc := [] } else o,
+      (s', if k.isRead then { o with held := [], cur := none, macc := [], reader := none } else o,
        [.enter cb (resOf r) (if k == .read then o.cur else none)
           (if k == .readMsg then some (o.macc ++ payloads o.held ++ payloads o.cur.toList) else none) (stOf s'.ws)])
   | .exit cb => (step true prog s (.exit cb)).map fun s' => (s', o, [.exit cb])
